@@ -23,7 +23,7 @@ func main() {
 		dkgcheck.ReplayFile(run, "C08")
 		return
 	}
-	dkgcheck.Run(run, "C08", dkgcheck.Jobs(run))
+	dkgcheck.Run(run, "C08", dkgcheck.Jobs(run, "C08"))
 	depth := 3
 	dkgcheck.PlainVSS(run, 3, 1, 1, 0, depth)
 	// receiver at index 0 (evaluation point 1: where coefficient-wise cancellations show)
